@@ -5,11 +5,12 @@
 
    Configurations (measured on this machine, 4-6 busy cores):
      Sync_quick.cfg      repaired, chain <= 3, 1 source step, 1 fault, safety + liveness 291 164 states
+     Sync_restart.cfg    repaired, one stop/restart of the node, safety + liveness + RestartIsNoOp 135 421 states
      Sync_h13.cfg        as coded for H13: RevertsJustified fails (29-35 step counterexample) ~17 000 states
      Sync_rvv.cfg        as coded for the unverified remote header: RevertsJustified fails
      Sync_underflow.cfg  as coded for the uint64 underflow: EventuallyConverges fails (lasso)
      Sync_live4.cfg      repaired, chain <= 4, safety + liveness                       519 059 states
-     Sync_fine.cfg       repaired, Fine = TRUE (the model the traces are validated against) 605 973 states
+     Sync_fine.cfg       repaired, Fine = TRUE (the model the traces are validated against) 717 215 states
      Sync_lagw.cfg       repaired, Lag = W = 2 as in the code, chain 5, safety         2 907 211 states
      Sync_faults2.cfg    repaired, chain <= 4, 1 source step, 2 faults, safety         2 523 682 states
      Sync_thorough.cfg   repaired, chain <= 4, 2 source steps, 1 fault, safety         8 628 206 states
